@@ -1,9 +1,18 @@
-"""PROVED-class obligations of C01: see props/resolves.py."""
+"""PROVED-class obligations of C01: see props/resolves.py (dispatch, Boolean model) and props/C20_proved.py (add_EOS construction)."""
 import z3
 
 from props import resolves
+from props import C20_proved
 
 
 def proved(run):
     run.trust("pyvc symbolic interpreter over the real AST", f"z3 {z3.get_version_string()}")
+    run.assume("composition lemma: mask = support of next-token weights of the Boolean prefix grammar of G.EOS - over the contracts of C20 (add_EOS), "
+               "C03 (prefix grammar), C02/C04 (parser, next-token weights); each premise is checked in its own property",
+               "A: _gen_nt freshness")
     resolves.c01_resolves(run)
+    resolves.c01_boolean_conversion(run)
+    n0 = len(run.obligations)
+    C20_proved.add_eos(run)
+    for o in run.obligations[n0:]:
+        o["name"] = o["name"].replace("C20/", "C01/", 1)
